@@ -121,7 +121,7 @@ fn check(case: &LedgerCase, obs: &mut Obs) -> Verdict {
         let model = model_for(&rows, case.opening_for(&sec));
         if model.err.is_none() {
             let what = CmpWhat { shares: false, acb: false, gain: false, sfl: true, ratio: false, adjustments: true };
-            if let Err(e) = compare(&model.rows, &n, false, &what) { return Verdict::Fail(format!("{sec}: apportioning differs from pro-rata end-of-window holdings: {e}\n{csv}")); }
+            if let Err((e, at)) = crate::cmp::compare_at(&model.rows, &n, false, &what) { return ledger_mismatch_verdict(&sec, &format!("apportioning differs from pro-rata end-of-window holdings: {e}"), at, &rows, &model, csv); }
         }
         any = true;
     }
